@@ -225,6 +225,64 @@ def run (ctx, repo, mods, type_parser_classes, fallback_classes=()):
               ctx.ob('R-AGREE', pf, "the remaining length `%s` is reduced by the bytes the cursor advanced" % ml.id, True, "len(%s) equals the bytes consumed" % obj, (cls.module, st), 'D1')
             else:
               ctx.undecided('R-AGREE', pf, "the remaining length `%s` is reduced by the bytes the cursor advanced" % ml.id, "`%s`: relation between len(%s) and the cursor advance not decided" % (norm(st), obj), (cls.module, st), 'D1')
+  # ---- E9 fields the decoder may leave at None and the serialiser uses as bytes / numbers ------------------------------------
+  for cls in classes:
+    un = cls.methods.get('unpack_new'); init = cls.methods.get('__init__')
+    if un is None or init is None: continue
+    none_fields = set(t.attr for t, v, st, k in q.stores_in(init.node) if isinstance(t, ast.Attribute) and norm(t.value) == 'self' and isinstance(v, ast.Constant) and v.value is None)
+    if not none_fields: continue
+    gu = q.cfg_of(un)
+    obj = None
+    for t, v, st, k in q.stores_in(un.node):
+      if isinstance(t, ast.Name) and isinstance(v, ast.Call) and isinstance(v.func, ast.Name) and v.func.id in ('cls', cls.name): obj = t.id
+    if obj is None: continue
+    for F in sorted(none_fields):
+      stn = [q.enclosing_stmt_node(gu, st) for t, v, st, k in q.stores_in(un.node) if isinstance(t, ast.Attribute) and t.attr == F and norm(t.value) == obj]
+      stn = [n for n in stn if n is not None]
+      if not stn: continue                                    # never set by the decoder: a constructor-only field
+      iv = gu.interval(lambda n: n in stn)
+      if iv is not None and iv[0] >= 1: continue              # set on every normal path
+      # what each normal path of the decoder assigns: field names, and the constants it gives to discriminator fields
+      upaths = []
+      for p_, e_ in q.paths_under(repo, cls.module, gu, q.Env(), gu.entry, [n_ for n_ in gu.nodes if n_.kind == 'return'], cls, limit=120):
+        assigned = set(); consts = {}
+        for n_ in p_:
+          if n_.kind == 'stmt' and isinstance(n_.ast, ast.Assign):
+            for t_ in n_.ast.targets:
+              for tt_ in (t_.elts if isinstance(t_, (ast.Tuple, ast.List)) else [t_]):
+                if isinstance(tt_, ast.Attribute) and norm(tt_.value) == obj:
+                  assigned.add(tt_.attr)
+                  if isinstance(n_.ast.value, ast.Constant) and not isinstance(t_, (ast.Tuple, ast.List)): consts[tt_.attr] = n_.ast.value.value
+        upaths.append((assigned, consts))
+      if not upaths or len(upaths) >= 120: continue
+      for name in PACK_NAMES:
+        pf = cls.methods.get(name)
+        if pf is None: continue
+        gp = q.cfg_of(pf)
+        for n in gp.nodes:
+          if n.ast is None or n.kind in ('def', 'branch', 'handler', 'join'): continue
+          srcs = [n.ast] if not isinstance(n.ast, (ast.If, ast.While, ast.For, ast.With, ast.Try)) else []
+          for src in srcs:
+            for x in ast.walk(src):
+              use = None
+              if isinstance(x, ast.Call) and isinstance(x.func, ast.Name) and x.func.id == 'len' and x.args and norm(x.args[0]) == 'self.' + F: use = "len(self.%s)" % F
+              elif isinstance(x, ast.BinOp) and isinstance(x.op, ast.Add) and any(norm(y) == 'self.' + F for y in (x.left, x.right)): use = norm(x)[:40]
+              elif isinstance(x, ast.AugAssign) and isinstance(x.op, ast.Add) and norm(x.value) == 'self.' + F: use = norm(x)[:40]
+              elif isinstance(x, ast.Subscript) and norm(x.value) == 'self.' + F and isinstance(x.ctx, ast.Load): use = norm(x)[:40]
+              if use is None: continue
+              fs = q.fact_strs(gp, n)
+              guarded = any(f_ in ('self.%s:truthy' % F, 'self.%s is not None' % F) for f_ in fs) or _in_try(gp, n, ('Exception', 'BaseException', 'TypeError'))
+              if not guarded:
+                # discriminator facts at the use (`self.phase == 1`): only decoder paths that set that value matter
+                want = {}
+                for l_, o_, r_, b_ in q.guard_facts(gp, n):
+                  if r_ is not None and o_ == '==' and isinstance(l_, ast.Attribute) and norm(l_.value) == 'self' and isinstance(r_, ast.Constant): want[l_.attr] = r_.value
+                if want:
+                  rel = [(a_, c_) for a_, c_ in upaths if all(c_.get(k_, '?') == v_ for k_, v_ in want.items())]
+                  if all(F in a_ for a_, c_ in rel): guarded = True
+              ctx.ob('R-DEF', pf, "`%s` is not reached while self.%s is None" % (use, F), guarded, "guarded by a test of self.%s" % F if guarded else
+                     "%s.unpack_new can return an object whose %s was never assigned (it is set only on some paths, __init__ leaves it None) and %s() applies `%s` to it: packing the parse result raises TypeError"
+                     % (cls.name, F, name, use), (cls.module, x), 'D4')
   ctx.stat('own __str__ methods examined', n_str); ctx.stat('tuple-arity sites', n_arity); ctx.stat('self-nesting dispatch sites', n_rec); ctx.stat('TLV value slices compared', n_tlv)
 
 def tlv_value_slices (ctx, classes, clause):
